@@ -10,6 +10,7 @@ import (
 	"strconv"
 	"strings"
 	"sync"
+	"sync/atomic"
 	"time"
 
 	"flamingo.me/flamingo/v3/framework/flamingo"
@@ -27,6 +28,19 @@ import (
 //   inside  = renders that reported entry (gate called) and whose Render has not returned
 //   waiting = renders started, not inside, Render not returned
 // quiescent = nobody waiting, or limit > 0 and at least limit renders inside.
+//
+// Contexts.  A render is started with one of
+//   ""          a live context (context.WithCancel), ended only by a cancel / race action
+//   "cancelled" a context that was cancelled before Render is called
+//   "expired"   a context whose deadline passed before Render is called
+//   "at"        c09Ctx: a context that ends by itself at the K-th use anybody makes of it
+//               (Done / Err / Value / Deadline, also through derived contexts), i.e. at a
+//               point of Render's own progress: before the select, in it, right after it, ...
+// "over" = the context of the render is known to be over.  A window is closed only
+// when no render whose context is over is still at the gate (neither returned nor
+// inside), or after c09Cancel: that is the observation behind "promptly".
+// The race action ends the context of a waiting render WHILE it tells a render
+// inside to leave (concurrently, or one a few microseconds after the other).
 
 const (
 	c09Settle  = 200 * time.Millisecond  // per action
@@ -39,10 +53,15 @@ const (
 )
 
 type c09Action struct {
-	Op      string `json:"op"`      // start | release | cancel | probe
+	Op      string `json:"op"`      // start | release | cancel | race | probe
 	Missing bool   `json:"missing"` // start: render a template that does not exist
-	Pick    int    `json:"pick"`    // release / cancel: index into the sorted inside / waiting set (mod size)
-	Outcome string `json:"outcome"` // release: ok | func_error | panic
+	Pick    int    `json:"pick"`    // release / cancel / race: index into the sorted inside / waiting set (mod size)
+	Outcome string `json:"outcome"` // release / race: ok | func_error | panic
+	Ctx     string `json:"ctx,omitempty"`      // start: "" | cancelled | expired | at
+	K       int    `json:"k,omitempty"`        // start, ctx "at": the context ends at its K-th use (K >= 1)
+	Pick2   int    `json:"pick2,omitempty"`    // race: index of the render inside that is told to leave
+	Order   int    `json:"order,omitempty"`    // race: 0 both at once (two goroutines), 1 release then cancel, 2 cancel then release
+	DelayUs int    `json:"delay_us,omitempty"` // race, order 1 / 2: pause between the two (busy wait, <= 500)
 }
 
 type c09Case struct {
@@ -63,7 +82,9 @@ type c09Window struct {
 	Rids     []int    `json:"rids"`  // renders the action addressed (started / released / cancelled)
 	Missing  bool     `json:"missing"`
 	Outcome  string   `json:"outcome,omitempty"`
+	Ctx      string   `json:"ctx,omitempty"` // start: the kind of context
 	Entered  []int    `json:"entered"`  // entry reports that arrived in this window, in order
+	Ended    []int    `json:"ended"`    // renders whose context was seen to be over for the first time in this window
 	Finished []c09Fin `json:"finished"` // Render calls that returned in this window, in order
 	Inside   []int    `json:"inside"`
 	Waiting  []int    `json:"waiting"`
@@ -87,7 +108,63 @@ type c09Render struct {
 	finished bool
 	told     bool
 	class    string
+	over     int32 // atomic: the context is over (set before the cancel is issued / when an "at" context fires)
+	overSeen bool  // reported in some window's Ended
 }
+
+func (r *c09Render) end() {
+	atomic.StoreInt32(&r.over, 1)
+	r.cancel()
+}
+
+// c09Ctx is a context that ends (context.Canceled) at its K-th use.  It keeps the
+// Context contract: Err is non-nil exactly when Done is closed; the use that
+// makes it end already sees it ended, as if another goroutine had cancelled it
+// just before.  left < 0: never by itself.
+type c09Ctx struct {
+	mu   sync.Mutex
+	done chan struct{}
+	err  error
+	left int
+	over *int32
+	wake func()
+}
+
+func (c *c09Ctx) use() {
+	c.mu.Lock()
+	if c.left > 0 {
+		c.left--
+		if c.left == 0 {
+			c.endLocked()
+		}
+	}
+	c.mu.Unlock()
+}
+
+func (c *c09Ctx) endLocked() {
+	if c.err == nil {
+		atomic.StoreInt32(c.over, 1)
+		c.err = context.Canceled
+		close(c.done)
+		c.left = -1
+	}
+}
+
+func (c *c09Ctx) end() {
+	c.mu.Lock()
+	c.endLocked()
+	c.mu.Unlock()
+}
+
+func (c *c09Ctx) Done() <-chan struct{} { c.use(); return c.done }
+func (c *c09Ctx) Err() error {
+	c.use()
+	c.mu.Lock()
+	defer c.mu.Unlock()
+	return c.err
+}
+func (c *c09Ctx) Value(interface{}) interface{} { c.use(); return nil }
+func (c *c09Ctx) Deadline() (time.Time, bool)   { c.use(); return time.Time{}, false }
 
 type c09Log struct {
 	enter bool
@@ -172,12 +249,29 @@ func (h *c09Hist) gate(id interface{}) (interface{}, error) {
 	return "x", nil
 }
 
-func (h *c09Hist) start(e renderer, missing bool) *c09Render {
-	ctx, cancel := context.WithCancel(context.Background())
+func (h *c09Hist) start(e renderer, missing bool, kind string, k int) *c09Render {
+	r := &c09Render{missing: missing, cmd: make(chan string, 1)}
+	var ctx context.Context
+	switch kind {
+	case "cancelled":
+		ctx, r.cancel = context.WithCancel(context.Background())
+		r.end()
+	case "expired":
+		ctx, r.cancel = context.WithDeadline(context.Background(), time.Now().Add(-time.Second))
+		atomic.StoreInt32(&r.over, 1)
+	case "at":
+		if k < 1 {
+			k = 1
+		}
+		c := &c09Ctx{done: make(chan struct{}), left: k, over: &r.over}
+		ctx, r.cancel = c, c.end
+	default:
+		ctx, r.cancel = context.WithCancel(context.Background())
+	}
 	h.mu.Lock()
 	rid := h.next
 	h.next++
-	r := &c09Render{rid: rid, missing: missing, cancel: cancel, cmd: make(chan string, 1)}
+	r.rid = rid
 	h.renders[rid] = r
 	h.mu.Unlock()
 	name := "g"
@@ -254,10 +348,61 @@ func (h *c09Hist) settle(pred func() bool, timeout, grace time.Duration) bool {
 	return ok
 }
 
+// overNow (h.mu held) reads every over flag once: the renders whose context is over,
+// and whether one of them has neither returned nor entered.
+func (h *c09Hist) overNow() (over []*c09Render, atGate bool) {
+	for _, r := range h.renders {
+		if atomic.LoadInt32(&r.over) != 0 {
+			over = append(over, r)
+			if !r.finished && !r.entered {
+				atGate = true
+			}
+		}
+	}
+	return
+}
+
+// window closes the window: it waits (up to c09Cancel) until no render whose
+// context is over is still at the gate, then takes the snapshot; the last test
+// and the snapshot are one critical section.
 func (h *c09Hist) window(w c09Window, settled bool) c09Window {
-	h.mu.Lock()
+	timeout := c09Cancel
+	if h.stalled {
+		timeout = c09Short
+	}
+	deadline := time.Now().Add(timeout)
+	var over []*c09Render
+	for {
+		h.mu.Lock()
+		var atGate bool
+		if over, atGate = h.overNow(); !atGate {
+			break
+		}
+		left := time.Until(deadline)
+		if left <= 0 {
+			h.stalled = true
+			break
+		}
+		h.mu.Unlock()
+		if left > 2*time.Millisecond {
+			left = 2 * time.Millisecond // an "at" context that fires does not signal: poll
+		}
+		t := time.NewTimer(left)
+		select {
+		case <-h.wake:
+		case <-t.C:
+		}
+		t.Stop()
+	}
 	defer h.mu.Unlock()
-	w.Entered, w.Finished = []int{}, []c09Fin{}
+	w.Entered, w.Finished, w.Ended = []int{}, []c09Fin{}, []int{}
+	for _, r := range over {
+		if !r.overSeen {
+			r.overSeen = true
+			w.Ended = append(w.Ended, r.rid)
+		}
+	}
+	sort.Ints(w.Ended)
 	for _, l := range h.log[h.mark:] {
 		if l.enter {
 			w.Entered = append(w.Entered, l.rid)
@@ -340,30 +485,70 @@ func runC09(c c09Case) (obs c09Obs, err error) {
 	for _, a := range c.Actions {
 		h.mu.Lock()
 		inside, waiting := h.sets()
-		var target *c09Render
-		switch a.Op {
+		var target, target2 *c09Render
+		op := a.Op
+		switch op {
 		case "release":
 			target = byRid(inside, a.Pick)
 		case "cancel":
 			target = byRid(waiting, a.Pick)
+		case "race":
+			// without a waiter it is a release, without anybody inside a cancel
+			target, target2 = byRid(waiting, a.Pick), byRid(inside, a.Pick2)
+			if target == nil {
+				op, target, target2 = "release", target2, nil
+			} else if target2 == nil {
+				op = "cancel"
+			}
 		}
 		h.mu.Unlock()
+		oc := a.Outcome
+		if oc != "func_error" && oc != "panic" {
+			oc = "ok"
+		}
 		switch {
-		case a.Op == "start":
-			r := h.start(render, a.Missing)
-			ok := h.settle(h.quiescent, c09Settle, c09Grace)
-			add(h.window(c09Window{Phase: "history", Op: "start", Rids: []int{r.rid}, Missing: a.Missing}, ok))
-		case a.Op == "release" && target != nil:
-			oc := a.Outcome
-			if oc != "func_error" && oc != "panic" {
-				oc = "ok"
+		case op == "start":
+			kind := a.Ctx
+			if kind != "cancelled" && kind != "expired" && kind != "at" {
+				kind = ""
 			}
+			r := h.start(render, a.Missing, kind, a.K)
+			ok := h.settle(h.quiescent, c09Settle, c09Grace)
+			add(h.window(c09Window{Phase: "history", Op: "start", Rids: []int{r.rid}, Missing: a.Missing, Ctx: kind}, ok))
+		case op == "race":
+			d := time.Duration(a.DelayUs) * time.Microsecond
+			if d < 0 || d > 500*time.Microsecond {
+				d = 0
+			}
+			pause := func() {
+				for t0 := time.Now(); time.Since(t0) < d; {
+				}
+			}
+			switch a.Order {
+			case 1:
+				h.tell(target2, oc)
+				pause()
+				target.end()
+			case 2:
+				target.end()
+				pause()
+				h.tell(target2, oc)
+			default:
+				go target.end()
+				h.tell(target2, oc)
+			}
+			left := h.allFinished([]*c09Render{target2})
+			ok := h.settle(func() bool {
+				return left() && (target.finished || target.entered) && h.quiescent()
+			}, c09Cancel, c09Grace)
+			add(h.window(c09Window{Phase: "history", Op: "race", Rids: []int{target.rid, target2.rid}, Outcome: oc}, ok))
+		case op == "release" && target != nil:
 			h.tell(target, oc)
 			done := h.allFinished([]*c09Render{target})
 			ok := h.settle(func() bool { return done() && h.quiescent() }, c09Settle, c09Grace)
 			add(h.window(c09Window{Phase: "history", Op: "release", Rids: []int{target.rid}, Outcome: oc}, ok))
-		case a.Op == "cancel" && target != nil:
-			target.cancel()
+		case op == "cancel" && target != nil:
+			target.end()
 			done := h.allFinished([]*c09Render{target})
 			ok := h.settle(func() bool { return done() && h.quiescent() }, c09Cancel, c09Grace)
 			w := h.window(c09Window{Phase: "history", Op: "cancel", Rids: []int{target.rid}, Missing: target.missing}, ok)
@@ -371,7 +556,7 @@ func runC09(c c09Case) (obs c09Obs, err error) {
 			w.Returned = target.finished
 			h.mu.Unlock()
 			add(w)
-		case a.Op == "probe":
+		case op == "probe":
 			ok := h.settle(h.quiescent, c09Settle, c09Grace)
 			add(h.window(c09Window{Phase: "history", Op: "probe"}, ok))
 		default:
@@ -409,7 +594,7 @@ func runC09(c c09Case) (obs c09Obs, err error) {
 	h.mu.Unlock()
 	if len(stuck) > 0 {
 		for _, r := range stuck {
-			r.cancel()
+			r.end()
 		}
 		done := h.allFinished(stuck)
 		ok := h.settle(done, c09Cancel, c09Grace)
@@ -427,7 +612,7 @@ func runC09(c c09Case) (obs c09Obs, err error) {
 	var fresh []*c09Render
 	var freshIds []int
 	for i := 0; i < k; i++ {
-		r := h.start(render, false)
+		r := h.start(render, false, "", 0)
 		fresh = append(fresh, r)
 		freshIds = append(freshIds, r.rid)
 	}
